@@ -307,6 +307,9 @@ def tlc_verdict(rc, out):
     m = re.search(r"Invariant (\w+) is violated", out)
     if m:
         return "violated:" + m.group(1)
+    m = re.search(r"Temporal property (\w+) was violated|Temporal properties were violated", out)
+    if m:
+        return "temporal:" + (m.group(1) or "")
     if "Deadlock reached" in out:
         return "deadlock"
     if rc == 124:
